@@ -1207,6 +1207,28 @@ SPECS.append(dict(name="TK.block_size", group="TlsKeys", file=TKF, func="Session
                   params=[("algo0", ALG)], outs=[("block_size", "Nat")],
                   consts={**ALG_CONSTS, "cipher_suite['CryptoAlgo'][0]": ("algo0", ALG)}))
 
+# dpkt_dsb.py (C12): `DecryptionSecretBlock.unpack`. dpkt itself is outside the subset (struct formats built by a metaclass): the
+# header unpack `dpkt.Packet.unpack(self, buf)` is stated as the two fields the method reads, from the externals `hdr_len` (raises where
+# the buffer is shorter than the header: `struct.error`, which `dpkt.Packet.__init__` turns into NeedData — both are `.struct` here) and
+# `hdr_slen`; `_do_unpack_options` is the external `unpack_options`; `dpng._align32b` is the model's `align4`; `__hdr_len__` is 20
+# (five 'I' fields). The Reader (`__init__`, `__iter__`: file objects, generators, floats) is refused, see OUTSIDE.
+DSBF = "tlexport/dpkt_dsb.py"
+COPT = "TLX.Container.Opt"
+GROUPS["Dsb"] = dict(imports=["TLX.PyRt", "TLX.Container"], decls=[], options=["set_option linter.unusedVariables false"])
+SPECS.append(dict(name="Dsb.unpack", group="Dsb", file=DSBF, func="DecryptionSecretBlock.unpack", theorem="Dsb.unpack_eq_model",
+                  params=[("buf", "Bytes")], ret="None", raise_state=False,
+                  externals=[("hdr_len", "Bytes → Except PyRt.Err Nat"), ("hdr_slen", "Bytes → Nat"),
+                             ("unpack_options", f"Bytes → Nat → Int → Except PyRt.Err (List {COPT})")],
+                  places=[("self.len", "len", "Nat", "rw"), ("self.secrets_length", "secrets_length", "Nat", "rw"),
+                          ("self.pkt_data", "pkt_data", "Bytes", "rw"), ("self.opts", "opts", f"List {COPT}", "rw")],
+                  consts={"self.__hdr_len__": ("(20 : Nat)", "Nat")}, raise_as={"dpkt.NeedData": "struct"},
+                  stmt_rewrites={"dpkt.Packet.unpack(self, buf)": "self.len = HDR_LEN(buf)\nself.secrets_length = HDR_SLEN(buf)",
+                                 "self._do_unpack_options(buf, opts_offset)": "self.opts = UNPACK_OPTIONS(buf, self.len, opts_offset)"},
+                  calls={"HDR_LEN": dict(lean="hdr_len", args=["Bytes"], ret="Nat", raises=True),
+                         "HDR_SLEN": dict(lean="hdr_slen", args=["Bytes"], ret="Nat"),
+                         "UNPACK_OPTIONS": dict(lean="unpack_options", args=["Bytes", "Nat", "Int"], ret=f"List {COPT}", raises=True),
+                         "dpng._align32b": dict(lean="TLX.Container.align4", args=["Nat"], ret="Nat")}))
+
 THEOREMS = _uniq(theorem_of(s) for s in SPECS)
 
 
@@ -1238,6 +1260,7 @@ CHECK_GROUPS = {
     "C09": ["Keylog"],
     "C10": ["Ports", "Builders", "Opts"],
     "C11": ["Checksum"],
+    "C12": ["Dsb"],
     "C13": ["TlsSess", "TlsSess2"],
     "C14": ["Suites"],
     "C15": ["KeySched", "QuicSess3", "Decrypt2", "TlsKeys"],
@@ -2123,6 +2146,45 @@ def _tk_cases(rng, call):
     return out
 
 
+def _dsb_cases(rng, call):
+    """dpkt_dsb.py (group Dsb): `DecryptionSecretBlock(buf)` / `DecryptionSecretBlockLE(buf)` of the REAL classes (dpkt underneath) on
+    well-formed blocks, blocks with options, truncated blocks, wrong length fields — against the translation with the model's
+    `fld` / `blockTail` as the dpkt externals (NeedData = `.struct`, UnpackError = `.value`, UnicodeDecodeError = `.type`).
+    The `len` field stays ≥ 7: below, `_do_unpack_options` slices with a negative bound, which `blockTail` does not model (its header
+    says so: the Reader has raised on such a length before any block class is built)."""
+    import importlib
+    import struct
+    import dpkt
+    dd = importlib.import_module("tlexport.dpkt_dsb")
+    out = []
+    for _ in range(6):
+        le = rng.random() < 0.5
+        o = "<" if le else ">"
+        data = bytes(rng.randrange(256) for _ in range(rng.choice([0, 1, 3, 4, 7, 16])))
+        pad = b"\0" * (-len(data) % 4)
+        opts = rng.choice([b"", struct.pack(o + "HH", 1, 2) + b"hi\0\0" + struct.pack(o + "HH", 0, 0), struct.pack(o + "HH", 1, 1) + b"\xff\0\0\0",
+                           struct.pack(o + "HH", 5, 3) + b"abc"])
+        n = 20 + len(data) + len(pad) + len(opts)
+        slen = rng.choice([len(data), len(data), len(data) + 1, 0, 1000])
+        buf = struct.pack(o + "IIII", 10, rng.choice([n, n, n, n + 4, 12, 7]), rng.choice([0x544c534b, 0]), slen) + data + pad + opts \
+            + struct.pack(o + "I", rng.choice([n, n, n, n + 1]))
+        buf = rng.choice([buf, buf, buf, buf[:rng.randint(0, len(buf))], buf + b"\1\2\3\4"])
+        try:
+            exp = ".ok " + _b((dd.DecryptionSecretBlockLE if le else dd.DecryptionSecretBlock)(buf).pkt_data)
+        except dpkt.NeedData:
+            exp = ".error .struct"
+        except dpkt.UnpackError:
+            exp = ".error .value"
+        except UnicodeDecodeError:
+            exp = ".error .type"
+        e = "TLX.Container.Endian." + ("le" if le else "be")
+        out.append((f"(fun buf => (Dsb.unpack (fun b => if b.length < 20 then .error .struct else .ok (TLX.Container.fld {e} b 4 4)) "
+                    f"(fun b => TLX.Container.fld {e} b 12 4) (fun b l oo => match TLX.Container.blockTail {e} b l oo.toNat with "
+                    "| .ok o => .ok o | .error .needData => .error .struct | .error .lenMismatch => .error .value | .error _ => .error .type) buf).map (·.pkt_data))",
+                    _b(buf), exp))
+    return out
+
+
 def _d2_cases(rng, call):
     """Decryptor.__init__ (group Decrypt2) on an object made without it, with the real `cryptography` classes (ARC4 keys of 16 / 3 bytes
     or None, `ChaCha20(key)` without a nonce); the attributes the constructor does not assign are sentinels on the Lean side and
@@ -2832,6 +2894,7 @@ def _cases(rng, n):
         out.extend(_d2_cases(rng, call))
         out.extend(_opts_cases(rng, call))
         out.extend(_tk_cases(rng, call))
+        out.extend(_dsb_cases(rng, call))
         for _ in range(2):
             out.extend(_bld_cases(rng, call))
         # output builders
